@@ -21,5 +21,6 @@ CONSTANTS
 INVARIANT NeverEscapes
 INVARIANT EquivRefBounded
 INVARIANT ElabFaultKept
+INVARIANT OutwardKept
 CONSTRAINT BoundEmit
 CHECK_DEADLOCK FALSE
